@@ -1665,6 +1665,45 @@ pub fn spaces(tier: Tier) -> Vec<Space> {
     // 9. field grid: keys assembled with `new` over depth × index × parent fingerprint (incl. None) × key × chain code, both kinds
     let g = grid(tier);
     v.push(Space::new("field-grid", g.size(), move |case, acc| eval_grid(&g, case, acc)));
+    // 9b. malformed path components among valid ones: every path of 2..3 components over 4 valid and 6 malformed components with
+    // at least one malformed, through the private and the public path parser - a reference path parser refuses all of them
+    {
+        let comps: Vec<&'static str> = vec!["0", "1", "2'", "5h", "x", "O", "-1", "2147483648", "99999999999", "1.5"];
+        let nc = comps.len() as u64;
+        v.push(Space::new("malformed-paths", (nc * nc + nc * nc * nc) * 2, move |case, acc| {
+            let c = coords(case.idx, &[nc * nc + nc * nc * nc, 2]);
+            let idxs: Vec<usize> = if c[0] < nc * nc { vec![(c[0] / nc) as usize, (c[0] % nc) as usize] } else { let k = c[0] - nc * nc; vec![(k / (nc * nc)) as usize, (k / nc % nc) as usize, (k % nc) as usize] };
+            if idxs.iter().all(|i| *i < 4) {
+                return; // well-formed: covered by the paths space
+            }
+            let is_priv = c[1] == 0;
+            if !is_priv && idxs.iter().any(|i| *i == 2 || *i == 3) {
+                return; // hardened components are refused by the public parser anyway
+            }
+            let path = format!("m/{}", idxs.iter().map(|i| comps[*i]).collect::<Vec<_>>().join("/"));
+            acc.evaluations += 1;
+            acc.transitions += 1;
+            acc.traces += 1;
+            acc.nontrivial_structural += 1;
+            let input = json!({"kind": kind_name(is_priv), "path": path});
+            let r = guard(|| -> Result<String, String> {
+                let m = XPrv::from_seed(&[7u8; 32]).map_err(|e| e.to_string())?;
+                if is_priv {
+                    m.derive_from_path(&path).and_then(|k| k.to_string()).map_err(|e| e.to_string())
+                } else {
+                    XPub::from_xpriv(&m).derive_from_path(&path).and_then(|k| k.to_string()).map_err(|e| e.to_string())
+                }
+            });
+            match r {
+                Ok(Err(_)) => acc.outcome(b"path-refused"),
+                Ok(Ok(k)) => {
+                    acc.outcome(b"path-accepted");
+                    acc.violate(format!("C08/{}derive_from_path/kind=missing-error-malformed-path", if is_priv { "" } else { "xpub." }), case.idx, case.json(input), format!("a path with a malformed component resolved to {}", k))
+                }
+                Err(p) => acc.violate(format!("C08/{}derive_from_path/kind=panic@{}", if is_priv { "" } else { "xpub." }, panic_site(&p)), case.idx, case.json(input), p),
+            }
+        }));
+    }
     // 10. the same constructors fed with key material in its non-default form, descendants to depth 4
     let g2 = grid(tier);
     let n10 = 2 * g2.keys.len() as u64 * g2.chains.len() as u64 * 2 * 6;
